@@ -5,6 +5,9 @@ import TensorModel.Proofs.Kernels
   (`cell`, `InBuf`, `denseLen` are defined there; see the header of `Props/C06.lean`).
   A comparison `op` applied to `x`, `y` is the symbolic value `.app2 op x y`; its 1/0 form of the
   operand type is `.app2 (op ++ ".same") x y`.
+  The scalar-tensor theorems speak about a scalar held in its own one-cell header (`sc.src = none`: a literal, or the copy
+  `scalarToHeader` has made); for a rank-0 *tensor* standing for the scalar the model makes that copy after
+  `handleFuncOpts` (`ScalarArg.refresh`), as the source does.
 -/
 set_option linter.unusedSimpArgs false
 namespace TM.C11
@@ -83,7 +86,7 @@ theorem engCmpVV_refuses (st : St) (op : String) (tc : List String) (a b : Dense
 /-- **Operand order with the scalar on the left** (`leftTensor := false`), raw path, default mode: cell
     `i` of the fresh bool tensor is `op s t[i]` — the scalar is the FIRST argument. -/
 theorem engCmpScalar_scalar_left (st : St) (op : String) (tc : List String) (t : Dense) (sc : ScalarArg)
-    (htc : t.dt ∈ tc) (hdt : t.dt = sc.dt) (hit : t.requiresIterator = false)
+    (htc : t.dt ∈ tc) (hdt : t.dt = sc.dt) (hsrc : sc.src = none) (hit : t.requiresIterator = false)
     (hs1 : sc.win.len = 1) (ht1 : t.win.len ≠ 1) (hsz : t.win.len = denseLen t.shape)
     (hS : InBuf st sc.win.buf sc.win.off 1) (hT : InBuf st t.win.buf t.win.off t.win.len) :
     ∃ out r s, engCmpScalar st op tc t sc false {} = .ok out ∧ out.ret = .fresh r ∧
@@ -92,7 +95,7 @@ theorem engCmpScalar_scalar_left (st : St) (op : String) (tc : List String) (t :
       (∀ i, i < t.win.len → ∃ x, cell st t.win.buf (t.win.off + i) = some x ∧
         cell out.st r.win.buf i = some (.app2 op s x)) ∧
       (∀ b' k, b' < st.heap.size → cell out.st b' k = cell st b' k) := by
-  obtain ⟨st', h, hm, hv, hfr⟩ := engCmpScalar_left' st op tc t sc (by simpa using htc) hdt hit hs1 ht1 hsz hS hT
+  obtain ⟨st', h, hm, hv, hfr⟩ := engCmpScalar_left' st op tc t sc (by simpa using htc) hdt hsrc hit hs1 ht1 hsz hS hT
   refine ⟨_, _, _, h, rfl, rfl, rfl, rfl, rfl, cell_some_cellD (by simpa using hS.has 0 (by omega)), hm, ?_, hfr⟩
   intro i hi
   exact ⟨_, cell_some_cellD (hT.has i hi), hv i hi⟩
@@ -101,7 +104,7 @@ theorem engCmpScalar_scalar_left (st : St) (op : String) (tc : List String) (t :
     cell becomes the 1/0 form `op.same s t[0]` — scalar FIRST — and the tensor itself is returned; apart from the
     scalar's temporary header no cell changes. (For larger tensors the scalar-left kernel writes the tensor directly.) -/
 theorem engCmpScalar_unsafe_scalar_left_one (st : St) (op : String) (tc : List String) (t : Dense) (sc : ScalarArg)
-    (htc : t.dt ∈ tc) (hdt : t.dt = sc.dt) (hs1 : sc.win.len = 1) (ht1 : t.win.len = 1)
+    (htc : t.dt ∈ tc) (hdt : t.dt = sc.dt) (hsrc : sc.src = none) (hs1 : sc.win.len = 1) (ht1 : t.win.len = 1)
     (hne : sc.win.buf ≠ t.win.buf) (hcap : 1 ≤ t.win.cap)
     (hS : InBuf st sc.win.buf sc.win.off 1) (hT : InBuf st t.win.buf t.win.off 1) :
     ∃ out s x, engCmpScalar st op tc t sc false { unsafe_ := true } = .ok out ∧ out.ret = .a ∧
@@ -109,9 +112,60 @@ theorem engCmpScalar_unsafe_scalar_left_one (st : St) (op : String) (tc : List S
       out.st.mheap = st.mheap ∧
       cell out.st t.win.buf t.win.off = some (.app2 (op ++ ".same") s x) ∧
       (∀ b' k, b' ≠ sc.win.buf → (b' ≠ t.win.buf ∨ k ≠ t.win.off) → cell out.st b' k = cell st b' k) := by
-  obtain ⟨st', h, hm, hv, hfr⟩ := engCmpScalar_unsafe_left_one' st op tc t sc (by simpa using htc) hdt hs1 ht1 hne hcap hS hT
+  obtain ⟨st', h, hm, hv, hfr⟩ := engCmpScalar_unsafe_left_one' st op tc t sc (by simpa using htc) hdt hsrc hs1 ht1 hne hcap hS hT
   exact ⟨_, _, _, h, rfl, cell_some_cellD (by simpa using hS.has 0 (by omega)),
     cell_some_cellD (by simpa using hT.has 0 (by omega)), hm, hv, hfr⟩
+
+/-- **Scalar on the left of an operand that needs an iterator, result of the operand's type** (`AsSameType()`; finding
+    F31, repaired: the result is walked with its own iterator, not with the operand's). The call returns a fresh tensor
+    `r` of `t`'s element type, shape and data order; at the `k`-th offset `m` of `r`'s own iterator it holds the 1/0 form
+    `op.same s t[j]`, `j` the `k`-th offset of `t`'s iterator — the scalar FIRST, the operand's `k`-th logical element
+    second — for a view with gaps as for any other operand; every pre-existing buffer is unchanged. -/
+theorem engCmpScalar_same_scalar_left_iter (st : St) (op : String) (tc : List String) (t : Dense) (sc : ScalarArg)
+    (htc : t.dt ∈ tc) (hdt : t.dt = sc.dt) (hsrc : sc.src = none) (hit : t.requiresIterator = true) (hnsc : isScalar t.shape = false)
+    (hs1 : sc.win.len = 1) (hmt : t.mask = none) (hl1 : denseLen t.shape ≠ 1) (hct : t.win.len ≤ t.win.cap)
+    (hor : ∀ i ∈ (freshOf st t.dt t.shape t.ap.o.col).offsets, 0 ≤ i ∧ i < (denseLen t.shape : Int))
+    (hot : ∀ j ∈ t.offsets, 0 ≤ j ∧ j < (t.win.len : Int))
+    (hnd : (freshOf st t.dt t.shape t.ap.o.col).offsets.Nodup)
+    (hT : InBuf st t.win.buf t.win.off t.win.len) (hS : InBuf st sc.win.buf sc.win.off 1) :
+    ∃ out r s, engCmpScalar st op tc t sc false { same := true } = .ok out ∧ out.ret = .fresh r ∧
+      r.dt = t.dt ∧ r.ap.shape = t.shape ∧ r.ap.o.col = t.ap.o.col ∧ r.win.buf = st.heap.size ∧ r.win.off = 0 ∧
+      cell st sc.win.buf sc.win.off = some s ∧ out.st.mheap = st.mheap ∧
+      (∀ (k : Nat) m j, r.offsets[k]? = some m → t.offsets[k]? = some j →
+        ∃ x, cell st t.win.buf (t.win.off + j.toNat) = some x ∧
+          cell out.st r.win.buf m.toNat = some (.app2 (op ++ ".same") s x)) ∧
+      (∀ b' k, b' < st.heap.size → cell out.st b' k = cell st b' k) := by
+  obtain ⟨st', h, hm, hv, hfr⟩ := engCmpScalar_iter_same_left' st op tc t sc (by simpa using htc) hdt hsrc hit hnsc hs1 hmt
+    hl1 hct hor hot hnd hT hS
+  refine ⟨_, _, _, h, rfl, rfl, rfl, rfl, rfl, rfl, cell_some_cellD (by simpa using hS.has 0 (by omega)), hm, ?_, hfr⟩
+  intro k m j hk hj
+  have hjr := hot j (List.mem_of_getElem? hj)
+  exact ⟨_, cell_some_cellD (hT.has.at hjr.1 hjr.2), hv k m j hk hj⟩
+
+/-- the same with a destination given (`WithReuse(r), AsSameType()`): `r` is returned and holds the 1/0 results at the
+    offsets of its own iterator; nothing outside `r`'s buffer changes -/
+theorem engCmpScalar_same_scalar_left_iter_reuse (st : St) (op : String) (tc : List String) (t r : Dense)
+    (sc : ScalarArg)
+    (htc : t.dt ∈ tc) (hdt : t.dt = sc.dt) (hsrc : sc.src = none) (hit : t.requiresIterator = true) (hnsc : isScalar t.shape = false)
+    (hs1 : sc.win.len = 1) (hmt : t.mask = none) (hmr : r.mask = none) (hr : ReuseFits r t.shape t.dt t.ap.o.col)
+    (hnrt : r.win.buf ≠ t.win.buf) (hnrs : r.win.buf ≠ sc.win.buf) (hlr : r.win.len ≠ 1)
+    (hcr : r.win.len ≤ r.win.cap) (hct : t.win.len ≤ t.win.cap)
+    (hor : ∀ i ∈ r.offsets, 0 ≤ i ∧ i < (r.win.len : Int)) (hot : ∀ j ∈ t.offsets, 0 ≤ j ∧ j < (t.win.len : Int))
+    (hnd : r.offsets.Nodup)
+    (hR : InBuf st r.win.buf r.win.off r.win.len) (hT : InBuf st t.win.buf t.win.off t.win.len)
+    (hS : InBuf st sc.win.buf sc.win.off 1) :
+    ∃ out s, engCmpScalar st op tc t sc false { reuse := some r, same := true } = .ok out ∧ out.ret = .reuse ∧
+      out.reuse = some r ∧ cell st sc.win.buf sc.win.off = some s ∧ out.st.mheap = st.mheap ∧
+      (∀ (k : Nat) m j, r.offsets[k]? = some m → t.offsets[k]? = some j →
+        ∃ x, cell st t.win.buf (t.win.off + j.toNat) = some x ∧
+          cell out.st r.win.buf (r.win.off + m.toNat) = some (.app2 (op ++ ".same") s x)) ∧
+      (∀ b' k, b' ≠ r.win.buf → cell out.st b' k = cell st b' k) := by
+  obtain ⟨st', h, hm, hv, hfr⟩ := engCmpScalar_iter_same_left_reuse' st op tc t r sc (by simpa using htc) hdt hsrc hit hnsc
+    hs1 hmt hmr hr hnrt hnrs hlr hcr hct hor hot hnd hR hT hS
+  refine ⟨_, _, h, rfl, rfl, cell_some_cellD (by simpa using hS.has 0 (by omega)), hm, ?_, hfr⟩
+  intro k m j hk hj
+  have hjr := hot j (List.mem_of_getElem? hj)
+  exact ⟨_, cell_some_cellD (hT.has.at hjr.1 hjr.2), hv k m j hk hj⟩
 
 /-! ## non-vacuity -/
 namespace Ex
@@ -131,7 +185,7 @@ example := engCmpVV_same st "gt" ordTypes ta tb (by decide) rfl (by decide) (by 
 example := engCmpVV_unsafe st "gt" ordTypes ta tb (by decide) rfl (by decide) (by decide) (by decide) (by decide)
   (by decide) rfl (by decide) inA inB
 example := engCmpVV_refuses st "gt" ordTypes { ta with dt := "c128" } tb {} (by decide)
-example := engCmpScalar_scalar_left st "gt" ordTypes ta sc (by decide) rfl (by decide) rfl (by decide) (by decide)
+example := engCmpScalar_scalar_left st "gt" ordTypes ta sc (by decide) rfl rfl (by decide) rfl (by decide) (by decide)
   inS inA
 -- column-major operands: the result is column-major as well (F36 repaired)
 def tac : Dense := { ap := { shape := [2, 2], strides := [1, 2], o := { col := true } }, win := ⟨0, 0, 4, 4⟩, dt := "f64" }
@@ -144,10 +198,30 @@ example : ∃ out r, engCmpVV st "gt" ordTypes tac tbc {} = .ok out ∧ out.ret 
 def st1 : St := { heap := #[#[.src 0 0], #[.src 1 0]] }
 def t1 : Dense := { ap := { shape := [1, 1], strides := [1, 1] }, win := ⟨0, 0, 1, 1⟩, dt := "f64" }
 def sc1 : ScalarArg := { win := ⟨1, 0, 1, 1⟩, dt := "f64" }
-example := engCmpScalar_unsafe_scalar_left_one st1 "gt" ordTypes t1 sc1 (by decide) rfl rfl rfl (by decide) (by decide)
+example := engCmpScalar_unsafe_scalar_left_one st1 "gt" ordTypes t1 sc1 (by decide) rfl rfl rfl rfl (by decide) (by decide)
   ⟨_, rfl, by decide⟩ ⟨_, rfl, by decide⟩
 example : ∃ out, engCmpScalar st1 "gt" ordTypes t1 sc1 false { unsafe_ := true } = .ok out ∧
     cell out.st 0 0 = some (.app2 "gt.same" (.src 1 0) (.src 0 0)) := ⟨_, rfl, rfl⟩
+-- the former witness of F31 (`new i8 1,6 C ; slice $0 n,0:6:2 ; bin gt meth #k3 $1 same`): a (1,3) view with a gap
+-- after every element; its iterator yields the offsets 0, 2, 4 of a 5-cell window, the result has 3 cells
+def st6 : St := { heap := #[#[.src 0 0, .src 0 1, .src 0 2, .src 0 3, .src 0 4, .src 0 5], #[.src 1 0],
+                            #[.src 2 0, .src 2 1, .src 2 2]] }
+def tv : Dense := { ap := { shape := [1, 3], strides := [6, 2], o := { nonContig := true } }, win := ⟨0, 0, 5, 6⟩,
+                    dt := "i8", view := true }
+def scv : ScalarArg := { win := ⟨1, 0, 1, 1⟩, dt := "i8" }
+def trv : Dense := { ap := { shape := [1, 3], strides := [3, 1] }, win := ⟨2, 0, 3, 3⟩, dt := "i8" }
+example : tv.offsets = [0, 2, 4] ∧ (freshOf st6 "i8" [1, 3] false).offsets = [0, 1, 2] := by decide
+example := engCmpScalar_same_scalar_left_iter st6 "gt" ordTypes tv scv (by decide) rfl rfl (by decide) (by decide) rfl rfl
+  (by decide) (by decide) (by decide) (by decide) (by decide) ⟨_, rfl, by decide⟩ ⟨_, rfl, by decide⟩
+example := engCmpScalar_same_scalar_left_iter_reuse st6 "gt" ordTypes tv trv scv (by decide) rfl rfl (by decide) (by decide)
+  rfl rfl rfl ⟨rfl, by decide, by decide, rfl⟩ (by decide) (by decide) (by decide) (by decide) (by decide) (by decide)
+  (by decide) (by decide) ⟨_, rfl, by decide⟩ ⟨_, rfl, by decide⟩ ⟨_, rfl, by decide⟩
+/-- the run itself: the three cells of the fresh result (buffer 3) are `gt.same 3 t[0]`, `gt.same 3 t[2]`, `gt.same 3 t[4]`
+    (before the repair the kernel indexed the 3-cell result with the offsets 0, 2, 4 and panicked) -/
+example : ∃ out, engCmpScalar st6 "gt" ordTypes tv scv false { same := true } = .ok out ∧
+    cell out.st 3 0 = some (.app2 "gt.same" (.src 1 0) (.src 0 0)) ∧
+    cell out.st 3 1 = some (.app2 "gt.same" (.src 1 0) (.src 0 2)) ∧
+    cell out.st 3 2 = some (.app2 "gt.same" (.src 1 0) (.src 0 4)) := ⟨_, rfl, rfl, rfl, rfl⟩
 /-- a concrete run: `Gt(2, t)` compares `gt 2 t[i]`, not `gt t[i] 2` -/
 example : ∃ out, engCmpScalar st "gt" ordTypes ta sc false {} = .ok out ∧
     cell out.st 3 1 = some (.app2 "gt" (.src 2 0) (.src 0 1)) := ⟨_, rfl, rfl⟩
